@@ -153,7 +153,7 @@ func (fr *frame) havocLoop(st *PState, b *ssa.BasicBlock, ord int) {
 		n := st.Fresh("traceN_loop", SInt)
 		st.Assume(App(SBool, ">=", n, st.traceN))
 		st.traceN = n
-		st.trace = st.Fresh("trace_loop", "(Array Int Int)")
+		st.trace = st.Fresh("trace_loop", "(Array Int Ev)")
 	}
 	// iterator / range positions advance inside loops
 	for _, x := range st.env {
@@ -176,7 +176,7 @@ func (fr *frame) havocLoop(st *PState, b *ssa.BasicBlock, ord int) {
 		n := st.Fresh("traceN_loop", SInt)
 		st.Assume(App(SBool, ">=", n, st.traceN))
 		st.traceN = n
-		st.trace = st.Fresh("trace_loop", "(Array Int Int)")
+		st.trace = st.Fresh("trace_loop", "(Array Int Ev)")
 	}
 }
 
